@@ -266,9 +266,42 @@ def o202(ctx):
         aps = [e for e in it.events if e.kind == "call" and e.name == "list.append" and e.fn == q]
         tup = aps[0].args[1] if aps else None
         ctx.count(1)
+        if aps and not (isinstance(tup, Seq) and len(tup.items) == 3):
+            # the candidates are kept in another layout (parallel lists, an array): what each piece holds is not read off a tuple here
+            raise Unsupported("the candidate matches are not recorded as one tuple per candidate: layout not decided", aps[0].node)
         if not (isinstance(tup, Seq) and len(tup.items) == 3 and tm.has_sym(to_term(tup.items[1]), smask) and tm.has_sym(to_term(tup.items[2]), tmask)
                 and tm.contains(to_term(tup.items[0]), lambda x: x.op == "sqrt")):
             ctx.finding(q, aps[0].node if aps else fn, "candidates must be recorded as (distance, source index, target index)", aps[0].node if aps else fn, m)
+
+
+def o202_returns(ctx):
+    """measure_thickness_cpu hands back what the one-to-one assignment produced: results keyed by the SOURCE point of the search (for '2to1' a
+    point of surface 2), unchanged"""
+    q = MT + "measure_thickness_cpu"
+    m, fn = ctx.prog.func(q)
+    src = lambda n: " ".join(ast.unparse(n).split())
+    calls = [a for a in ast.walk(fn) if isinstance(a, ast.Assign) and isinstance(a.value, ast.Call) and (ctx.prog.resolve(m, a.value.func) or src(a.value.func)).endswith("process_matches_cpu2cpu")]
+    if len(calls) != 1 or not (isinstance(calls[0].targets[0], ast.Tuple) and all(isinstance(e, ast.Name) for e in calls[0].targets[0].elts)):
+        raise Unsupported("measure_thickness_cpu: unpacking of process_matches_cpu2cpu's results not recognised", fn)
+    names = [e.id for e in calls[0].targets[0].elts]
+    rets = [r for r in ast.walk(fn) if isinstance(r, ast.Return) and r.value is not None]
+    nested = {id(x) for n in ast.walk(fn) if isinstance(n, (ast.FunctionDef, ast.Lambda)) and n is not fn for x in ast.walk(n)}
+    rets = [r for r in rets if id(r) not in nested]
+    ctx.count(1, {"results of the assignment step": names, "returned": [src(r.value)[:60] for r in rets]})
+    ok_ret = any(isinstance(r.value, ast.Tuple) and [src(e) for e in r.value.elts] == names for r in rets)
+    if not ok_ret:
+        raise Unsupported("measure_thickness_cpu does not return the unpacked results of process_matches_cpu2cpu as they are named", fn)
+    # between the assignment step and the return nothing rebinds or writes into the three results
+    for n in ast.walk(fn):
+        if id(n) in nested or not isinstance(n, (ast.Assign, ast.AugAssign)) or n is calls[0] or n.lineno < calls[0].lineno:
+            continue
+        tg = n.targets if isinstance(n, ast.Assign) else [n.target]
+        hit = [x.id for t_ in tg for x in ast.walk(t_) if isinstance(x, ast.Name) and x.id in names and (isinstance(x.ctx, ast.Store) or isinstance(t_, ast.Subscript))]
+        ctx.count(1)
+        if hit:
+            ctx.finding(q, n, f"`{src(n)[:80]}` changes `{hit[0]}` after the one-to-one assignment: thickness, validity and partner of a measurement belong to "
+                        "the source point of the search (row i describes source point i; for '2to1' a point of surface 2) -- re-keying or editing them afterwards "
+                        "breaks 'source on the source surface, partner on the target surface' and the equivalence of '2to1' with exchanged masks", n, m)
 
 
 def o203(ctx):
@@ -504,6 +537,7 @@ def _obligations():
         Obligation("O20.4", "the per-source cap counts accepted candidates only (counter incremented where a candidate is recorded)", o204, floor=2),
         Obligation("O20.1", "all three kernels accept a candidate iff it is ahead of the source and inside the cone of half-angle max_angle", o201, floor=300),
         Obligation("O20.2", "candidate ball centred on the source points with radius max_thickness/voxel_size; row-space typing; 2to1 swap", o202, floor=16),
+        Obligation("O20.6", "measure_thickness_cpu returns the results of the one-to-one assignment unchanged (keyed by the source point)", o202_returns, floor=1),
         Obligation("O20.3", "greedy one-to-one assignment: sorted by distance, taken tests and markers, tuple layout, thickness scaling", o203, floor=7),
     ]
 
